@@ -62,8 +62,39 @@ static void dump_offsets(void)
     OFF(ABTI_xstream, state);
 }
 
+/* C02 monitor: a context-switch callback republishes the unit that switched away (push to a pool, BLOCKED store,
+ * join link, lock release).  It must run after that unit's context has been saved, i.e. never on that unit's own
+ * stack. */
+static void cb_stack_monitor(int kind, const void *p1, const void *p2, long v)
+{
+    (void)p2;
+    (void)v;
+    if (kind < 30 || kind > 43 || !p1)
+        return;
+    const ABTI_ythread *p_prev;
+    switch (kind) {
+        case 36: case 38: case 40: case 41: case 42: case 43:
+            p_prev = *(ABTI_ythread *const *)p1; /* argument struct: first member is p_prev */
+            break;
+        default:
+            p_prev = (const ABTI_ythread *)p1;
+    }
+    if (!p_prev)
+        return;
+    const char *top = (const char *)p_prev->ctx.p_stacktop;
+    size_t size = p_prev->ctx.stacksize;
+    volatile char here;
+    const char *sp = (const char *)&here;
+    if (top && size && sp >= top - size && sp < top) {
+        char b[64];
+        vs_fail("context-switch callback %d for %s runs on that unit's own stack: its context is not saved yet", kind,
+                vs_addr_name(p_prev, b, sizeof b));
+    }
+}
+
 void vsa_begin(void)
 {
+    vs_set_event_fn(cb_stack_monitor);
     vs_set_unit_fn(cur_unit);
     vs_init(vsa_seed, vsa_mode, vsa_logpath);
     dump_offsets();
